@@ -18,11 +18,21 @@
     the driver throws or closes instead of sending, there is no `#receive`.
   * `C06_return_value_event`: `return e` reports the value through `#value` and returns the answer; falling
     off the end is `return None` (`bodyWithReturn`).
-  Not proved here: counting statements over whole runs ("exactly once per activation") — the stream grammar
-  oracle of the check explores them.  An abandoned activation (a closed generator that yields again) gets no
-  `#exit`: Python never resumes it.
+  Over whole runs, with the recording handler of the generated programs (Proofs/Inv.lean is a generic invariant
+  theorem for the interpreter, Proofs/InvEvents.lean its instance):
+  * `C06_events_of_activation`: the events of an activation are `#enter`, then events carrying only names of
+    variables and of the body's own meta events (`#value`, `#yield`, `#receive`, `#loop_x`, `#endloop_x`), then
+    `#error` with the exception exactly if the activation ends by raising, then `#exit` — for every function of
+    the core fragment, capture set containing the three, input, generator script; nothing of the last two after
+    an abandoned activation (a closed generator that yields again: Python never resumes it);
+  * `C06_rewritten_events`: the same for the REWRITTEN function, through the refinement theorem, and
+    `C06_generated_events` with no hypothesis about hosts or states left (initial state of a generated program);
+  * `C06_enter_exactly_once`: hence exactly one `#enter` event per activation.
+  Not proved: that `#value` is delivered exactly once per normal completion (it is FALSE: findings F7c / F7d)
+  and the pairing of loop markers over whole runs — the stream grammar oracle of the check explores them.
 -/
 import PteraModel.Proofs.PyLiteSpec
+import PteraModel.Proofs.InvEvents
 namespace Ptera.Props.C06
 open Ptera.Py Ptera.Sem
 
@@ -120,6 +130,83 @@ theorem C06_fall_off_is_return_none (f : FunDef) (h : endsWithReturn (hoistB f.b
   rw [hh] at h
   simp only at h ⊢
   simp [h]
+
+/-- the events of an activation of the reference semantics, with the recording handler -/
+theorem C06_events_of_activation (sc : String → Bool) (cfg : Cfg)
+    (hE : shouldInstr cfg "#enter" ["enter"] = true) (hX : shouldInstr cfg "#exit" ["exit"] = true)
+    (hEr : shouldInstr cfg "#error" [] = true) (fuel : Nat) (f : FunDef) (hf : coreF f = true)
+    (st0 : St PyLite.World PyLite.HState) (h0 : MarkerFree PyLite.Good PyLite.WInv st0) :
+    ∃ mid, (∀ i ∈ mid, bodyName i.name = true) ∧
+      (runRef (recEnv sc cfg) fuel f st0).2.hs.events
+        = st0.hs.events ++ [metaEv "#enter" (some enterAnn) (.bool true)] ++ mid ++
+          (match (runRef (recEnv sc cfg) fuel f st0).1 with
+           | .exc e => if isFatal e then [] else [metaEv "#error" none e, metaEv "#exit" (some exitAnn) (.bool true)]
+           | _ => [metaEv "#exit" (some exitAnn) (.bool true)]) :=
+  events_of_activation sc cfg hE hX hEr fuel f hf st0 h0
+
+/-- … and of the rewritten function -/
+theorem C06_rewritten_events (cfg : Cfg)
+    (hE : shouldInstr cfg "#enter" ["enter"] = true) (hX : shouldInstr cfg "#exit" ["exit"] = true)
+    (hEr : shouldInstr cfg "#error" [] = true) (fuel : Nat) (f : FunDef) (hf : coreF f = true)
+    (st0 : St PyLite.World PyLite.HState) (h0 : MarkerFree PyLite.Good PyLite.WInv st0)
+    (hext : ∀ x ∈ (collect f).external, st0.loc x = none) :
+    ∃ mid, (∀ i ∈ mid, bodyName i.name = true) ∧
+      (runInstr (ctxOf PyLite.hostObs cfg f fuel).envI fuel (instrument cfg f) st0).2.hs.events
+        = st0.hs.events ++ [metaEv "#enter" (some enterAnn) (.bool true)] ++ mid ++
+          (match (runInstr (ctxOf PyLite.hostObs cfg f fuel).envI fuel (instrument cfg f) st0).1 with
+           | .exc e => if isFatal e then [] else [metaEv "#error" none e, metaEv "#exit" (some exitAnn) (.bool true)]
+           | _ => [metaEv "#exit" (some exitAnn) (.bool true)]) := by
+  obtain ⟨e1, o1⟩ := instrument_refines PyLite.hostObs cfg f fuel hf
+    (libSpec_of_host PyLite.hostObs PyLite.hostSpecObs cfg f fuel hf) st0 hext
+  rw [e1, o1.hs]
+  exact events_of_activation (scopeRef cfg f) cfg hE hX hEr fuel f hf st0 h0
+
+/-- no hypothesis about hosts or states left: the events of the rewritten function, run from the initial state of
+    a generated program (integer arguments, any condition script, any driver script) -/
+theorem C06_generated_events (cfg : Cfg)
+    (hE : shouldInstr cfg "#enter" ["enter"] = true) (hX : shouldInstr cfg "#exit" ["exit"] = true)
+    (hEr : shouldInstr cfg "#error" [] = true) (fuel : Nat) (f : FunDef) (hf : coreF f = true)
+    (args : List Int) (hlen : f.params.length ≤ args.length) (script : List Bool)
+    (inp : List GenCmd) (hinp : ∀ cmd ∈ inp, GoodCmd PyLite.Good cmd) :
+    let r := runInstr (ctxOf PyLite.hostObs cfg f fuel).envI fuel (instrument cfg f) (genState f args script {} inp)
+    ∃ mid, (∀ i ∈ mid, bodyName i.name = true) ∧
+      r.2.hs.events = [metaEv "#enter" (some enterAnn) (.bool true)] ++ mid ++
+          (match r.1 with
+           | .exc e => if isFatal e then [] else [metaEv "#error" none e, metaEv "#exit" (some exitAnn) (.bool true)]
+           | _ => [metaEv "#exit" (some exitAnn) (.bool true)]) := by
+  intro r
+  obtain ⟨mid, hm, he⟩ := C06_rewritten_events cfg hE hX hEr fuel f hf (genState f args script {} inp)
+    (genState_markerFree f args hlen script {} inp hinp) (genState_external f hf args script {} inp)
+  have h0 : (genState f args script {} inp).hs.events = [] := rfl
+  rw [h0, List.nil_append] at he
+  exact ⟨mid, hm, he⟩
+
+/-- exactly one `#enter` event per activation -/
+theorem C06_enter_exactly_once (sc : String → Bool) (cfg : Cfg)
+    (hE : shouldInstr cfg "#enter" ["enter"] = true) (hX : shouldInstr cfg "#exit" ["exit"] = true)
+    (hEr : shouldInstr cfg "#error" [] = true) (fuel : Nat) (f : FunDef) (hf : coreF f = true)
+    (st0 : St PyLite.World PyLite.HState) (h0 : MarkerFree PyLite.Good PyLite.WInv st0)
+    (hnone : st0.hs.events = []) :
+    ((runRef (recEnv sc cfg) fuel f st0).2.hs.events.filter (fun i => i.name == "#enter")).length = 1 := by
+  obtain ⟨mid, hm, he⟩ := events_of_activation sc cfg hE hX hEr fuel f hf st0 h0
+  rw [he, hnone]
+  have hmid : mid.filter (fun i => i.name == "#enter") = [] := by
+    rw [List.filter_eq_nil_iff]
+    intro i hi
+    have := hm i hi
+    intro hc
+    have hn : i.name = "#enter" := by simpa using hc
+    rw [hn] at this
+    exact absurd this (by decide)
+  simp only [List.nil_append, List.filter_append, hmid, List.append_nil]
+  cases (runRef (recEnv sc cfg) fuel f st0).1 with
+  | exc e =>
+    simp only
+    split <;> simp [metaEv]
+  | normal => simp [metaEv]
+  | brk => simp [metaEv]
+  | cont => simp [metaEv]
+  | ret v => simp [metaEv]
 
 /-- `def f(a): for i in T(1, 'tuple', 2): b = i` followed by `return a` -/
 def sample : FunDef :=
